@@ -32,7 +32,7 @@ func (p *Prop) Meta() simkit.Meta {
 			"NewLogHist with max<=1, NaN/Inf, and values more than 1e6 bin widths outside the range are not generated (int conversion of such values is platform-defined); LogHist.Add(x<=0) IS generated and must land in the under count (on amd64 the conversion of -Inf/NaN yields a negative index, which the pinned code already counts as under)",
 			"bins are at least 1e6 ulps of the range end points wide",
 			"a value within 16*eps*(|min|+|max|+|x|) of an edge (LogHist: 16*eps*(1+|ln x|) in log space) may fall on either side, as the statement allows",
-			"the statement does not fix whether the floor(q*total)-th smallest sample is counted from 0 or from 1: a result is accepted if it is consistent with either reading (in-bin rank +-1), so only what both readings imply is demanded",
+			"the floor(q*total)-th smallest sample is counted from 1 (the 1st smallest is the minimum, q=1 names the maximum - the statement expects q=1 to work); rank 0 names no sample and nothing is demanded there beyond not panicking; the in-bin interpolation rank is accepted within +-1. (The first version accepted a 0-based reading as well, which made q=1 with overflow samples vacuous; an independent breaking change, seeded C14-t3, showed that.)",
 			"edges are those documented by the constructors: min+i*(max-min)/nbins and b^(i/m)",
 		},
 		FaultKinds:    []string{"stub_histogram_counters"},
@@ -486,7 +486,12 @@ func (c *ctx) quantile() {
 		}
 	}
 	for _, g := range gs {
-		for base := int64(0); base <= 1; base++ {
+		// "the k-th smallest sample" counts from 1 (the 1st smallest is the minimum;
+		// q=1 names the maximum): that reading is demanded whenever it names a
+		// sample. Rank 0 names no sample: nothing is demanded there beyond not
+		// panicking. The in-bin interpolation rank is still accepted within +-1
+		// (see below), which covers an implementation that interpolates from 0.
+		for base := int64(1); base <= 1; base++ {
 			s := g - base // 0-based sample index
 			if s < 0 || s >= int64(total) {
 				readings = append(readings, reading{desc: fmt.Sprintf("rank %d (%d-based): no such sample", g, base), bin: -1})
